@@ -52,5 +52,8 @@ pub fn install() -> bool {
 
 /// (events formatted, octets of formatted text) since process start
 pub fn counters() -> (u64, u64) {
-    (EVENTS.load(Ordering::Relaxed), FORMATTED_BYTES.load(Ordering::Relaxed))
+    (
+        EVENTS.load(Ordering::Relaxed),
+        FORMATTED_BYTES.load(Ordering::Relaxed),
+    )
 }
